@@ -114,6 +114,39 @@ theorem bounds_of_no_hit (rows cols : Nat) (hit : Nat → Nat → Bool)
       rw [h y x (List.mem_range.mp hy) hx] at hxx; cases hxx
   simp [bounds, this]
 
+/-! ### only the cells of the raster matter -/
+
+theorem scan_congr {ys : List Nat} {h h' : Nat → Bool} (e : ∀ y ∈ ys, h y = h' y) : scan ys h = scan ys h' := by
+  unfold scan
+  generalize ((0, false) : Nat × Bool) = c
+  induction ys generalizing c with
+  | nil => rfl
+  | cons y ys ih =>
+    simp only [List.foldl_cons, e y (by simp)]
+    exact ih (fun z hz => e z (by simp [hz])) _
+
+theorem bounds_congr (rows cols : Nat) (hit hit' : Nat → Nat → Bool)
+    (e : ∀ y x, y < rows → x < cols → hit y x = hit' y x) : bounds rows cols hit = bounds rows cols hit' := by
+  have hr : ∀ y, y < rows → rowHit cols hit y = rowHit cols hit' y := by
+    intro y hy
+    rw [Bool.eq_iff_iff, rowHit_iff, rowHit_iff]
+    constructor <;> rintro ⟨x, hx, hh⟩
+    · exact ⟨x, hx, by rw [← e y x hy hx]; exact hh⟩
+    · exact ⟨x, hx, by rw [e y x hy hx]; exact hh⟩
+  have hc : ∀ x, x < cols → colHit rows hit x = colHit rows hit' x := by
+    intro x hx
+    rw [Bool.eq_iff_iff, colHit_iff, colHit_iff]
+    constructor <;> rintro ⟨y, hy, hh⟩
+    · exact ⟨y, hy, by rw [← e y x hy hx]; exact hh⟩
+    · exact ⟨y, hy, by rw [e y x hy hx]; exact hh⟩
+  have s1 := scan_congr (ys := List.range rows) (fun y hy => hr y (List.mem_range.mp hy))
+  have s2 := scan_congr (ys := (List.range rows).reverse)
+    (fun y hy => hr y (List.mem_range.mp (List.mem_reverse.mp hy)))
+  have s3 := scan_congr (ys := List.range cols) (fun x hx => hc x (List.mem_range.mp hx))
+  have s4 := scan_congr (ys := (List.range cols).reverse)
+    (fun x hx => hc x (List.mem_range.mp (List.mem_reverse.mp hx)))
+  simp only [bounds, s1, s2, s3, s4]
+
 /-! ### the slice -/
 
 theorem sliceIdx_nat (n lo hi : Nat) : sliceIdx n (lo : Int) ((hi : Int) + 1) = List.range' lo (min (hi + 1) n - lo) := by
